@@ -97,6 +97,14 @@ fn observe_ct(trigger: Trigger<FromClient<CT>>, mut log: ResMut<EventLog>) {
     log.0.push(("CT", trigger.event().event.0, if t == Entity::PLACEHOLDER { None } else { Some(t) }, Some(trigger.event().client)));
 }
 
+/// A relationship registered for synchronized replication (not replicated itself).
+#[derive(Component)]
+#[relationship(relationship_target = FollowedBy)]
+struct Follows(Entity);
+#[derive(Component)]
+#[relationship_target(relationship = Follows)]
+struct FollowedBy(Vec<Entity>);
+
 /// Counting allocator: remembers the largest single allocation request (C06: no allocation out of proportion).
 struct CountingAlloc;
 static MAX_ALLOC: std::sync::atomic::AtomicUsize = std::sync::atomic::AtomicUsize::new(0);
@@ -138,6 +146,8 @@ enum Sop {
     Map(usize, u32, u32),
     /// event type, mode (b | x<slot> | d<slot> | ds), sequence number, entity (script id) for SEM / ST
     Ev(String, String, u32, Option<u32>),
+    /// set (Some) or clear (None) the `Follows` relationship of an entity
+    Rel(u32, Option<u32>),
 }
 
 #[derive(Clone, Debug)]
@@ -170,6 +180,7 @@ struct ReplicationRan(bool);
 struct TickEvents(Vec<u32>);
 
 struct Cfg {
+    rel: bool,
     policy: String,
     auth: String,
     track: bool,
@@ -217,6 +228,10 @@ fn add_common(app: &mut App, cfg: &Cfg, server_side: bool) {
         .init_resource::<EventLog>();
     if cfg.track {
         app.track_mutate_messages();
+    }
+    if cfg.rel {
+        use bevy_replicon::server::related_entities::SyncRelatedAppExt;
+        app.sync_related_entities::<Follows>();
     }
     let _ = server_side;
 }
@@ -426,6 +441,25 @@ fn apply_sops(world: &mut World) {
                         world.flush();
                     }
                     _ => {}
+                }
+            }
+            Sop::Rel(id, target) => {
+                let e = world.resource::<Table>().ents.get(&id).copied();
+                let t = target.and_then(|t| world.resource::<Table>().ents.get(&t).copied());
+                if let Some(e) = e {
+                    if world.get_entity(e).is_ok() {
+                        match (target, t) {
+                            (Some(_), Some(t)) => {
+                                if t != e && world.get_entity(t).is_ok() {
+                                    world.entity_mut(e).insert(Follows(t));
+                                }
+                            }
+                            (None, _) => {
+                                world.entity_mut(e).remove::<Follows>();
+                            }
+                            _ => {}
+                        }
+                    }
                 }
             }
             Sop::Map(c, id, pc) => {
@@ -1158,12 +1192,14 @@ fn parse_sop(t: &[&str]) -> Option<Sop> {
         "vis" => Sop::Vis(t[1].parse().ok()?, t[2].parse().ok()?, t[3] == "1"),
         "map" => Sop::Map(t[1].parse().ok()?, t[2].parse().ok()?, t[3].parse().ok()?),
         "ev" => Sop::Ev(t[1].into(), t[2].into(), t[3].parse().ok()?, t.get(4).and_then(|s| s.trim_start_matches('r').parse().ok())),
+        "rel" => Sop::Rel(t[1].parse().ok()?, Some(t[2].parse().ok()?)),
+        "unrel" => Sop::Rel(t[1].parse().ok()?, None),
         _ => return None,
     })
 }
 
 fn parse_cfg(line: &str) -> Cfg {
-    let mut cfg = Cfg { policy: "all".into(), auth: "none".into(), track: false, timeout_ms: 10_000, nclients: 1 };
+    let mut cfg = Cfg { rel: false, policy: "all".into(), auth: "none".into(), track: false, timeout_ms: 10_000, nclients: 1 };
     for kv in line.split_whitespace().skip(1) {
         let Some((k, v)) = kv.split_once('=') else { continue };
         match k {
@@ -1172,6 +1208,7 @@ fn parse_cfg(line: &str) -> Cfg {
             "track" => cfg.track = v == "1",
             "timeout" => cfg.timeout_ms = v.parse().unwrap(),
             "nclients" => cfg.nclients = v.parse().unwrap(),
+            "rel" => cfg.rel = v == "1",
             _ => {}
         }
     }
